@@ -1012,9 +1012,9 @@ class C04(core.Check):
                   "run (py2v), so sgr_means_visual_attribute is re-checked against the code; (visual_colours) the colour of every kind (true, high, basic, default) spelled out; "
                   "(row_cells_is_threaded) zero-width (combining) characters and C0 control characters (dropped under UTF-8, '?' "
                   "under narrow encodings) are covered by all of the above except as the first character of a run - the "
-                  "reference terminal joins a zero-width character to the character before the cursor.  REFUTED with a "
-                  "machine-checked witness replayed on the implementation (draw_paints_any_text_full, known finding): a "
-                  "bottom row whose last run holds no columns.  Correspondence/oracle only: everything above on the real code (exact token streams, all "
+                  "reference terminal joins a zero-width character to the character before the cursor.  NOT proved, "
+                  "statement kept (draw_paints_any_text_full; two earlier refutation witnesses repaired and kept in the "
+                  "corpus): runs that start with a zero-column character or hold no columns - oracle only.  Correspondence/oracle only: everything above on the real code (exact token streams, all "
                   "five colour depths, utf-8/ascii/iso8859-1, widgets), partial display with an origin below row 0, and for "
                   "the HTML back-end the colour strings.")
     level_note = ("Trusted: Coq kernel; the hand-written model (tied by exact correspondence, not proved against Python); "
@@ -1763,8 +1763,58 @@ class C04(core.Check):
             case["badrows"] = 1
         return case
 
+    def gen_zw_case(self, rng):
+        """zero-column characters everywhere: runs that start with a combining / control character, runs that hold
+        no column at all, at the start, in the middle and at the end of rows, bottom rows included"""
+        def gen_row(cols):
+            cells, col = [], 0
+            while True:
+                r = rng.random()
+                if r < 0.35:
+                    cells.append((rng.randrange(4), rng.choice(["\u0301", "\u0302", "\x01"]), 0))
+                elif col >= cols:
+                    if rng.random() < 0.6:
+                        break
+                    cells.append((rng.randrange(4), rng.choice(["\u0301", "\u0302"]), 0))
+                elif r < 0.5 and col + 2 <= cols:
+                    cells.append((rng.randrange(4), "\u4e16", 2))
+                    col += 2
+                elif r < 0.65:
+                    cells.append((rng.randrange(4), " ", 1))
+                    col += 1
+                else:
+                    cells.append((rng.randrange(4), rng.choice("abxy"), 1))
+                    col += 1
+            runs = []
+            for a, ch, _w in cells:
+                if runs and runs[-1][0] == a and rng.random() < 0.8:
+                    runs[-1][2] += ch
+                else:
+                    runs.append([a, 0, ch])
+            return runs
+        cols, rows = rng.choice([1, 2, 2, 3, 3, 4, 5]), rng.choice([1, 1, 2, 3])
+        case = {"enc": "utf-8", "colors": 16, "bib": 0, "bbb": 0, "bce": rng.choice([0, 1]),
+                "partial": rng.choice([0, 0, 0, 1]), "palette": PALETTE, "attrs": self.ATTRS, "frames": []}
+        if case["partial"]:
+            case["origin"] = 0
+        prev = None
+        for _ in range(rng.choice([1, 2, 3])):
+            rws = [gen_row(cols) for _ in range(rows)]
+            if prev and rng.random() < 0.5:
+                rws = [[list(r) for r in row] for row in prev]
+                rws[rng.randrange(rows)] = gen_row(cols)
+            prev = rws
+            cur = [rng.randrange(cols), rng.randrange(rows)] if (rng.random() < 0.5 or case["partial"]) else None
+            f = {"op": "draw", "cols": cols, "rows": rows, "canvas": [rng.choice(["rows", "textcanvas"]), rws], "cursor": cur}
+            if not case["partial"] and rng.random() < 0.7:
+                f["scramble"] = rng.choice([0, 1, 2])
+            case["frames"].append(f)
+        return case
+
     def cases(self, rng, tier):
         k = 1 if tier == "quick" else 8
+        for _ in range(1500 * k):
+            yield self.gen_zw_case(rng)
         for _ in range(1500 * k):
             yield self.gen_html_case(rng)
         yield from self.exhaustive_cases(rng, 4 if tier == "quick" else 5)
